@@ -108,15 +108,18 @@ CHECKS = {
                   'failure-atomicity contracts on the public API',
         ref='DESIGN.md section 4 C12'),
     'C14': dict(
-        category='exploration',
-        text='Bounded: walk(all=True) yields exactly the reachable nodes once, parents first, positioned siblings in '
-             'CPython position order; back / on=leave / on=both / self_ / recurse / type filters agree with the '
-             'reference derived from that order; first_child/next and last_child/prev chains, next_child/prev_child, '
-             'repeated step_fwd/step_back reproduce it; prev(next(x)) is x; child_from_path(child_path(x)) is x; on '
-             'every node (navigation: sampled nodes) of the corpus and, in the thorough tier, standard-library '
-             'modules. The symbolic proof of the generated NEXT/PREV functions is not registered in this revision.',
-        note='Bounded runtime contracts; oracle: CPython positions and ast.walk. Nothing proved.',
-        technique='bounded runtime contracts on traversal APIs against an independent reference order',
+        category='proof',
+        text='Proof, for ALL field lengths, that the generated sibling-stepping functions of traverse_next.py and '
+             'traverse_prev.py (resolved through the NEXT_FUNCS / PREV_FUNCS dict literals; ~400 entries of 80 node '
+             'classes) return exactly the next / previous child in syntactic order: lists are symbolic, optional '
+             'fields fork, the specification is an ORDER table written from the grammar and validated against CPython '
+             'positions on every run. The position-merging functions of Call, ClassDef, Dict, MatchMapping, Compare and '
+             'arguments and the walk generator are covered by the bounded stand-in only (walk modes, chains, step_*, '
+             'paths; thorough: standard library). Known finding F-C14-1 (Module.type_ignores has no table entries).',
+        note=TB + 'ORDER table is trusted only as far as its per-run validation against CPython on the corpus goes. '
+             + BND,
+        technique='contract-based deductive verification of generated code (symbolic lists, z3) against a '
+                  'grammar-order specification validated by CPython + bounded runtime contracts on traversal APIs',
         ref='DESIGN.md section 4 C14'),
     'C15': dict(
         category='exploration',
